@@ -40,6 +40,21 @@ for pid in sorted(props):
                 f"{ev['coverage'].get('evaluations', '')} | {round(ev.get('wall_s', 0))} |")
 PROPERTY_TABLE = "\n".join(rows)
 
+trows = ["| Property | Obligations (thorough) | holds | known finding | inconclusive (incl. not started within the budget) | paths + queries | wall (s) |",
+         "|---|---|---|---|---|---|---|"]
+for pid in sorted(props):
+    p = os.path.join(ROOT, "evidence_thorough", f"{pid}.json")
+    if not os.path.exists(p):
+        continue
+    ev = json.load(open(p))
+    tab = ev["coverage"].get("obligation_table", [])
+    cnt = {}
+    for o in tab:
+        cnt[o.get("verdict")] = cnt.get(o.get("verdict"), 0) + 1
+    trows.append(f"| {pid} | {len(tab)} | {cnt.get('holds', 0)} | {cnt.get('known', 0)} | {cnt.get('inconclusive', 0)} | "
+                 f"{ev['coverage'].get('evaluations', '')} | {round(ev.get('wall_s', 0))} |")
+THOROUGH_TABLE = "\n".join(trows) if len(trows) > 2 else "(no thorough run recorded)"
+
 kf = json.load(open(os.path.join(ROOT, "known_findings.json")))
 FIXED_TABLE = "\n".join("* " + esc(x[len("fixed: "):] if x.startswith("fixed: ") else x) for x in kf["fixed"])
 KNOWN_TABLE = "\n".join(f"* **{k['property']}** `{k['obligation']}` — {esc(k['what'])}" for k in kf["findings"])
@@ -63,7 +78,7 @@ for d in sorted(glob.glob(os.path.join(ROOT, "seeded", "*", "meta.json"))):
 SEED_TABLE = "\n".join(rows)
 
 head = open(os.path.join(ROOT, "tools", "asbuilt_head.md")).read()
-for k, v in (("@@PROPERTY_TABLE@@", PROPERTY_TABLE), ("@@FIXED_TABLE@@", FIXED_TABLE), ("@@KNOWN_TABLE@@", KNOWN_TABLE),
+for k, v in (("@@THOROUGH_TABLE@@", THOROUGH_TABLE), ("@@PROPERTY_TABLE@@", PROPERTY_TABLE), ("@@FIXED_TABLE@@", FIXED_TABLE), ("@@KNOWN_TABLE@@", KNOWN_TABLE),
              ("@@SEED_TABLE@@", SEED_TABLE)):
     head = head.replace(k, v)
 partb = open(os.path.join(ROOT, "tools", "design_partB.md")).read()
